@@ -582,10 +582,11 @@ def c08_matcher(tier, seed):
     from rdkit import Chem
     from pgradd.RINGParser.Reader import Read
     rnd = random.Random(seed)
-    smiles = ['C', 'CC', 'C=C', 'C#C', 'CO', 'C=O', 'CCO', 'CC=O', 'C1CC1', 'C1CO1', '[CH3]', '[CH2]C', '[CH]=C', 'C[O-]', 'C[NH3+]', 'CN', 'O=C=O',
+    smiles = ['C', 'CC', 'C=C', 'C#C', 'CO', 'C=O', 'CCO', 'CC=O', 'C1CC1', 'C1CO1', 'C1CC12CCC2', 'C1CCC2CCCC2C1',      # spiro / fused: atoms in rings of different sizes
+              '[CH3]', '[CH2]C', '[CH]=C', 'C[O-]', 'C[NH3+]', 'CN', 'O=C=O',
               '[CH2][CH2]', 'C[C]C', 'C1=CC1', 'OO', 'N#N', '[OH]', 'C1CCC1', 'C12CC1C2', 'c1ccccc1', 'CC(C)=O']
     if tier == 'quick':
-        smiles = smiles[:18]
+        smiles = smiles[:20]
     makers = ['Chem.MolFromSmiles(%r)' % s for s in smiles]
     # molecules handed over with SOME hydrogens already explicit (isotope-labelled H, hydrogens added on selected atoms only, all explicit)
     makers += ["Chem.MolFromSmiles('[2H]CC')", "Chem.AddHs(Chem.MolFromSmiles('CCO'), onlyOnAtoms=[0])", "Chem.AddHs(Chem.MolFromSmiles('C=CO'), onlyOnAtoms=[2])",
@@ -687,6 +688,7 @@ def c08_matcher(tier, seed):
                     for bk in ('single', 'double', 'any'):
                         out.append(('conn', neg, op, n, t, bk))
                 out.append(('ringsize', neg, op, n + 2))
+                out.append(('ringsize', neg, op, n + 4))
                 out.append(('nring', neg, op, n))
                 out.append(('radical', neg, op, n))
         return out
@@ -789,6 +791,49 @@ def c02_reference(tier, seed):
                                  'script': "import pgradd.ThermoChem\nfrom pgradd.GroupAdd.Library import GroupLibrary\nprint(dict(GroupLibrary.Load(%r).GetDescriptors(%r)))  # expected %r\n" % (name, smi, want)})
             elif len(samples) < 4 and want[0] == 'ok' and len(want[1]) > 2:
                 samples.append({'library': name, 'smiles': smi, 'descriptors': want[1]})
+    # synthetic scheme files (a scheme is user data): an overlapping centre pattern placed last / first, a removed pattern, and
+    # smiles- / smarts-based descriptor entries with names shared with RING-based ones
+    import tempfile, shutil, yaml
+    from pgradd.GroupAdd.Scheme import GroupAdditivityScheme
+    tmp = tempfile.mkdtemp(prefix='c02_syn_')
+    try:
+        for base in (['BensonGA', 'GRWSurface2018'] if tier != 'quick' else ['BensonGA']):
+            d0 = yaml.safe_load(open(os.path.join(source.DATA_DIR, base, 'scheme.yaml')))
+            dup = {'center_name': 'Cdup', 'periph_name': 'Cdup', 'connectivity': 'fragment a{ C labeled c1 {connected to >2 H} }'}
+            variants = {'overlap-last': lambda d: d['patterns'].append(dict(dup)), 'overlap-first': lambda d: d['patterns'].insert(0, dict(dup)),
+                        'pattern-removed': lambda d: d['patterns'].pop(0),
+                        'smiles-smarts-entries': lambda d: d.update({'smiles_based_descriptors': [{'name': 'Cis', 'smarts': '[CX4][OX2H]', 'useChirality': False},
+                                                                                               {'name': 'Alcohol', 'smarts': '[OX2H]', 'useChirality': False}],
+                                                                      'smarts_based_descriptors': [{'name': 'Alcohol', 'smarts': '[#6][#8][#1]', 'useChirality': False}]})}
+            for vn, edit in variants.items():
+                d = yaml.safe_load(yaml.safe_dump(d0))
+                edit(d)
+                path = os.path.join(tmp, '%s_%s.yaml' % (base, vn))
+                yaml.safe_dump(d, open(path, 'w'))
+                try:
+                    with real.quiet():
+                        sch = GroupAdditivityScheme.Load(path)
+                except Exception as e:    # noqa
+                    viol.append({'id': 'syn-%s-%s-load' % (base, vn), 'input': {'scheme': base, 'variant': vn}, 'observed': 'Load raised %s' % type(e).__name__, 'expected': 'scheme loads'})
+                    continue
+                for smi in ['C', 'CC', 'CCO', 'C=C', 'CC(C)(C)C', 'OCCO', 'C=CO', 'c1ccccc1'] if base == 'BensonGA' else ['CC', 'C([Pt])C', 'CCO', 'OC([Pt])C']:
+                    n += 1
+                    try:
+                        want = ('ok', _norm(S.ref_descriptors(base, smi, scheme_path=path)))
+                    except S.Fail as e:
+                        want = ('fail', str(e))
+                    try:
+                        with real.quiet():
+                            got = ('ok', _norm({str(k): v for k, v in sch.GetDescriptors(smi).items()}))
+                    except Exception as e:    # noqa
+                        got = ('fail', type(e).__name__)
+                    same = (got[0] == want[0]) and (got[0] == 'fail' and got[1] == 'PatternMatchError' or got[0] == 'ok' and got[1] == want[1])
+                    if want[0] == 'ok':
+                        distinct += 1
+                    if not same and len(viol) < 25:
+                        viol.append({'id': 'syn-%s-%s-%s' % (base, vn, smi), 'input': {'scheme': base, 'variant': vn, 'smiles': smi}, 'observed': got, 'expected': want})
+    finally:
+        shutil.rmtree(tmp, ignore_errors=True)
     return {'name': 'scheme-reference-interpreter', 'evaluations': n, 'distinct_nontrivial': distinct, 'violations': viol, 'samples': samples,
             'bound': 'generated molecules (<= 3-4 heavy atoms over C/O, rings, multiple bonds + curated aromatics/radicals/adsorbates) x %d schemes' % len(libs),
             'rule': 'a case is (scheme, molecule); non-trivial = decomposable by the reference interpreter'}
@@ -1016,6 +1061,10 @@ def c17_closure(tier, seed):
     rules = {'CH': '[C:1][H:2]>>[C:1].[H:2]', 'CC': '[C:1][C:2]>>[C:1].[C:2]', 'OH': '[O:1][H:2]>>[O:1].[H:2]', 'CO': '[C:1][O:2]>>[C:1].[O:2]'}
     rulesets = [['CH'], ['CC'], ['CH', 'CC'], ['OH'], ['CO', 'OH']] if tier == 'quick' else [['CH'], ['CC'], ['CH', 'CC'], ['OH'], ['CO', 'OH'], ['CH', 'CO'], ['CH', 'CC', 'OH', 'CO']]
     seedsets = [['C'], ['CC'], ['CO'], ['CC', '[CH2]C'], ['C', 'CC'], ['CO', 'C']] if tier == 'quick' else [['C'], ['CC'], ['CO'], ['CC', '[CH2]C'], ['C', 'CC'], ['CO', 'C'], ['CCC'], ['CCO'], ['[CH3]', 'C']]
+    # two rules that give the same new species from one reactant; seeds that carry an atom above its default valence (the valence
+    # filter applies to generated species: a seed is always part of the answer)
+    rulesets += [['CH', 'OH']]
+    seedsets += [['[C-]#[O+]'], ['C[N+](=O)[O-]'], ['CS(C)=O', 'C']] if tier != 'quick' else [['[C-]#[O+]', 'C'], ['C[N+](=O)[O-]']]
     viol, n, distinct, samples = [], 0, 0, []
     pt = GetPeriodicTable()
 
@@ -1111,41 +1160,71 @@ def c15_histories(tier, seed):
     viol, n, distinct, samples = [], 0, 0, []
     ref_cache = {}
 
-    def fresh_ref(libname, smi, what, T, se):
-        key = (libname, smi, what, T, se)
+    def build(rcp):
+        lib = real.load(rcp[0], fresh=True)
+        for other in rcp[1:]:
+            with real.quiet():
+                try:
+                    lib.Update(real.load(other, fresh=True), overwrite=True)
+                except Exception:    # noqa
+                    pass
+        return lib
+
+    def fresh_ref(rcp, smi, what, T, se):
+        key = (rcp, smi, what, T, se)
         if key not in ref_cache:
-            lib = real.load(libname, fresh=True)
+            lib = build(rcp)
             with real.quiet():
                 d = lib.GetDescriptors(smi)
                 if what == 'descriptors':
                     ref_cache[key] = ('ok', {str(k): v for k, v in d.items()})
                 else:
-                    est = lib.Estimate(d, 'thermochem')
-                    ref_cache[key] = real.outcome(getattr(est, what), T, **({'S_elements': se} if what == 'get_SoR' else {}))
+                    ref_cache[key] = real.outcome(lambda: getattr(lib.Estimate(d, 'thermochem'), what)(T, **({'S_elements': se} if what == 'get_SoR' else {})))
         return ref_cache[key]
 
     def fp(lib):
         return tuple(sorted((str(g), lib[g]['thermochem'].yaml_format()) for g in lib if 'thermochem' in lib[g]))
-    for h in range(nhist):
+    # scripted histories first: evaluate, merge another library INTO the evaluated one, evaluate the same thing again
+    scripts = []
+    for A in libs:
+        for B in libs:
+            if A != B:
+                m0 = mols[A][0]
+                ev = [{'op': 'estimate', 'name': A, 'what': w, 'se': None, 'T': 400.0} for w in ('get_SoR', 'get_HoRT', 'get_CpoR')]
+                scripts.append([{'op': 'load', 'name': A}, {'op': 'decompose', 'name': A, 'smi': m0}] + ev + [{'op': 'merge-live', 'name': A, 'other': B}] + ev)
+    if tier == 'quick':
+        scripts = rnd.sample(scripts, 3)
+    cur = {'script': None, 'step': 0}
+
+    def pick(field, options):
+        sc = cur['script']
+        if sc is not None and field in sc[cur['step']]:
+            return sc[cur['step']][field]
+        return rnd.choice(options)
+    for h in range(nhist + len(scripts)):
         live = {}
+        recipe = {}
         decomp = []      # (libname, smiles, descriptors)
         last_decomposed = {}
-        L = rnd.randint(2, 12) if tier == 'quick' else rnd.randint(2, 40)
+        cur['script'] = scripts[h] if h < len(scripts) else None
+        L = len(cur['script']) if cur['script'] else (rnd.randint(2, 12) if tier == 'quick' else rnd.randint(2, 40))
         trace = []
         fps0 = {}
         for step in range(L):
-            op = rnd.choice(['load', 'decompose', 'decompose', 'estimate', 'estimate', 'merge'])
+            cur['step'] = step
+            op = pick('op', ['load', 'decompose', 'decompose', 'estimate', 'estimate', 'estimate', 'merge', 'merge-live'])
             if op == 'load' or not live:
-                name = rnd.choice(libs)
+                name = pick('name', libs)
                 live[name] = real.load(name, fresh=True)
                 fps0[name] = fp(live[name])
                 last_decomposed[name] = None     # a new library object has decomposed nothing yet
+                recipe[name] = (name,)
                 trace.append(('load', name))
                 continue
-            name = rnd.choice(list(live))
+            name = pick('name', list(live))
             lib = live[name]
             if op == 'decompose':
-                smi = rnd.choice(mols[name])
+                smi = pick('smi', mols[name])
                 with real.quiet():
                     d = lib.GetDescriptors(smi)
                 got = ('ok', {str(k): v for k, v in d.items()})
@@ -1153,21 +1232,19 @@ def c15_histories(tier, seed):
                 last_decomposed[name] = smi
                 trace.append(('decompose', name, smi))
                 n += 1
-                want = fresh_ref(name, smi, 'descriptors', None, None)
+                want = fresh_ref(recipe[name], smi, 'descriptors', None, None)
                 if got != want and len(viol) < 10:
                     viol.append({'id': 'h%d-s%d' % (h, step), 'input': {'history': trace[:]}, 'observed': got, 'expected': want})
             elif op == 'estimate' and any(x[0] == name for x in decomp):
                 nm, smi, d = rnd.choice([x for x in decomp if x[0] == name])
-                what = rnd.choice(['get_HoRT', 'get_SoR', 'get_CpoR', 'get_SoR'])
-                se = rnd.choice([None, True]) if what == 'get_SoR' else None
+                what = pick('what', ['get_HoRT', 'get_SoR', 'get_CpoR', 'get_SoR'])
+                se = pick('se', [None, True]) if what == 'get_SoR' else None
+                T = pick('T', [300.0, 400.0, 500.0])
                 with real.quiet():
-                    est = lib.Estimate(d, 'thermochem')
-                r = est.get_range() or (298.15, 298.15)
-                T = r[0]
-                got = real.outcome(getattr(est, what), T, **({'S_elements': se} if what == 'get_SoR' else {}))
+                    got = real.outcome(lambda: getattr(lib.Estimate(d, 'thermochem'), what)(T, **({'S_elements': se} if what == 'get_SoR' else {})))
                 trace.append(('estimate', name, smi, what, se))
                 n += 1
-                want = fresh_ref(name, smi, what, T, se)
+                want = fresh_ref(recipe[name], smi, what, T, se)
                 same = got[0] == want[0] and (got[0] == 'exc' or real.close(got[1], want[1], 1e-12, 1e-12))
                 if not same:
                     cls = 'K1:library-name-channel' if (se and last_decomposed.get(name) != smi) else None
@@ -1185,13 +1262,24 @@ def c15_histories(tier, seed):
                     except Exception:    # noqa
                         pass
                 trace.append(('merge-into-new', name, other))
+            elif op == 'merge-live':
+                # merge another library INTO a live one (after it may already have been evaluated): later results must equal those of
+                # a fresh load + the same merges
+                other = pick('other', [x for x in libs if x != name])
+                with real.quiet():
+                    try:
+                        lib.Update(real.load(other, fresh=True), overwrite=True)
+                    except Exception:    # noqa
+                        pass
+                recipe[name] = recipe[name] + (other,)
+                trace.append(('merge-into-live', name, other))
         distinct += 1
         for name, lib in live.items():
             n += 1
-            if fp(lib) != fps0[name]:
+            if len(recipe[name]) == 1 and fp(lib) != fps0[name]:
                 viol.append({'id': 'h%d-data-%s' % (h, name), 'input': {'history': trace}, 'observed': 'library data changed', 'expected': 'computing does not alter any library\'s data'})
         if len(samples) < 2:
             samples.append(trace[:10])
     return {'name': 'operation-histories', 'evaluations': n, 'distinct_nontrivial': distinct, 'violations': viol, 'samples': samples,
-            'bound': '%d random histories of length 2..%d over 3 libraries, each result compared with the single operation on freshly loaded objects' % (nhist, 12 if tier == 'quick' else 40),
+            'bound': '%d scripted (evaluate / merge into the evaluated library / evaluate again) + %d random histories of length 2..%d over 3 libraries, each result compared with the single operation on freshly loaded objects' % (len(scripts), nhist, 12 if tier == 'quick' else 40),
             'rule': 'a case is one history; distinct by seed'}
